@@ -14,7 +14,7 @@ ulimit -v 25165824 2>/dev/null || true                    # 24 GB address space 
 
 ALL="base64_len32_complete base64_len0to12_bounded base64_encoded_len_formula
      flags_user_present_exact flags_user_verified_exact flags_backup_state_exact flags_all_three_exact
-     challenge_len32_exact challenge_len32_genuine_accepted challenge_short_payload_rejected challenge_len33_tail_ignored"
+     challenge_len32_exact challenge_wrong_length_rejected challenge_len32_genuine_accepted challenge_short_payload_rejected challenge_len33_tail_ignored"
 HARNESSES="${*:-$ALL}"
 
 # build once (so that the per-harness times below are verification times) and show that the checked text is the real text
